@@ -64,6 +64,51 @@ func c13Obs(evs []wev, userMsg string) (string, []string) {
 	return strings.Join(parts, "|"), problems
 }
 
+// c13Chunky takes only a part of what it is given on its first call of a record and reports no error (a chunked or
+// buffering device); it records what it was handed.
+type c13Chunky struct {
+	got   [][]byte
+	short bool
+}
+
+func (c *c13Chunky) Write(p []byte) (int, error) {
+	c.got = append(c.got, append([]byte(nil), p...))
+	if c.short && len(p) > 4 {
+		return len(p) / 2, nil
+	}
+	return len(p), nil
+}
+
+// c13ShortCounts: whatever count a destination reports, every other destination of the list is handed the whole record.
+func c13ShortCounts(r *run) {
+	for round := 0; round < 6; round++ {
+		first, mid, last := &c13Chunky{short: round%3 == 0}, &c13Chunky{short: round%3 == 1}, &c13Chunky{short: round%3 == 2}
+		l := slog.New(fmt.Sprintf("c13chunky-%d", round)).SetLevel(slog.InfoLevel)
+		if round < 3 {
+			l.SetColorMode(false)
+		} else {
+			l.SetJSONMode(true)
+		}
+		l.SetWriter(first)
+		l.AddWriter(mid)
+		l.AddWriter(last)
+		l.SetErrorWriter(&c13Chunky{})
+		msg := fmt.Sprintf("a record for three destinations, round %d", round)
+		l.Info(msg, "k", round)
+		r.seen(fmt.Sprintf("short-count|%d", round))
+		for name, d := range map[string]*c13Chunky{"first": first, "second": mid, "third": last} {
+			if d.short {
+				continue // what a destination that reports a short count is handed next is its own business
+			}
+			if len(d.got) != 1 || !bytes.Contains(d.got[0], []byte(msg)) || !bytes.HasSuffix(d.got[0], []byte("\n")) || bytes.IndexByte(d.got[0], 't') < 0 || !(d.got[0][0] == '{' || bytes.HasPrefix(d.got[0], []byte("time="))) {
+				r.violate(violation{What: "a destination did not receive the complete record in one Write while a sibling reported a short count without an error",
+					Input: map[string]any{"destination": name, "short_counting_destination": []string{"first", "second", "third"}[round%3], "format": map[bool]string{true: "logfmt", false: "json"}[round < 3]},
+					Actual: fmt.Sprintf("%q", d.got)})
+			}
+		}
+	}
+}
+
 func runC13(r *run) {
 	g := &rng{s: r.seed*32452843 + 13}
 	r.rule = "configurations (1..3 normal / error / per-level writers, some LevelSettable) × severity classes × logger levels × ALL fail/succeed assignments to the write attempts of a call (attempts of the record plus attempts of its diagnostic, up to 6), each followed by a fault-free call; distinct = distinct (configuration shape, severity, logger level, schedule); non-trivial = schedules with at least one failure"
@@ -262,5 +307,6 @@ func runC13(r *run) {
 			}
 		}
 	}
+	c13ShortCounts(r)
 	slog.VerifResetGlobals()
 }
